@@ -400,7 +400,7 @@ def raising_policies():
 
 
 def run_ssh_client(host, port, entries, policy, host_key, entry="password", system_entries=None, user_via="file",
-                   raw_lines=None, raw_store="user", pre_connect=None):
+                   raw_lines=None, raw_store="user", pre_connect=None, gss_kex=False):
     """entries: [(name-in-file, hashed?, PKey)] written to a known_hosts file; returns observation.
     entry = which authentication entry point of SSHClient.connect is used: legacy password= / pkey= arguments, or
     auth_strategy= with a password / private-key source"""
@@ -432,7 +432,7 @@ def run_ssh_client(host, port, entries, policy, host_key, entry="password", syst
         try:
             return _connect_with_stores(c, paramiko, HostKeys, host, port, entries, policy, host_key, entry,
                                         system_entries, user_via, raw_lines, raw_store, path, spath, cs, srv, called,
-                                        pre_connect)
+                                        pre_connect, gss_kex)
         except paramiko.hostkeys.InvalidHostKey as e:
             return {"outcome": "known-hosts-load-error", "server_saw": [x[0] for x in srv.log],
                     "server_saw_credential": any(x[0] in ("password", "publickey") for x in srv.log),
@@ -449,7 +449,7 @@ def run_ssh_client(host, port, entries, policy, host_key, entry="password", syst
 
 
 def _connect_with_stores(c, paramiko, HostKeys, host, port, entries, policy, host_key, entry, system_entries,
-                         user_via, raw_lines, raw_store, path, spath, cs, srv, called, pre_connect=None):
+                         user_via, raw_lines, raw_store, path, spath, cs, srv, called, pre_connect=None, gss_kex=False):
     import os  # noqa: F401
 
     if True:
@@ -505,6 +505,13 @@ def _connect_with_stores(c, paramiko, HostKeys, host, port, entries, policy, hos
             with warnings.catch_warnings():
                 warnings.simplefilter("ignore")
                 kw = dict(port=port, sock=cs, timeout=WAIT, banner_timeout=WAIT, auth_timeout=WAIT)
+                if gss_kex:
+                    # GSS-API key exchange REQUESTED (stub GSS context: no GSSAPI library here); the server offers no
+                    # gss-* method, so an ordinary key exchange is negotiated
+                    from pv.lib_authsrv import install_gss_stub
+
+                    install_gss_stub()
+                    kw.update(gss_kex=True, gss_trust_dns=False, gss_host="pvhost.example")
                 if entry == "password":
                     kw.update(username="alice", password=PASSWORD, allow_agent=False, look_for_keys=False)
                 elif entry == "pkey":
@@ -528,7 +535,8 @@ def _connect_with_stores(c, paramiko, HostKeys, host, port, entries, policy, hos
         out = {"outcome": classify_exc(exc), "server_saw": [x[0] for x in srv.log],
                "server_saw_credential": any(x[0] in ("password", "publickey") for x in srv.log),
                "server_saw_password": any(x[0] == "password" and x[1] == PASSWORD for x in srv.log),
-               "raw": bytes(cs.raw), "policy_called": list(called)}
+               "raw": bytes(cs.raw), "policy_called": list(called),
+               "gss_kex_used": bool(getattr(c.get_transport(), "gss_kex_used", False)) if c.get_transport() else None}
         try:
             c.close()
         except Exception:
@@ -670,3 +678,25 @@ def pkey_eq_fact():
                      for n in ast.walk(tree))
     uses_hash = any(isinstance(n, ast.Call) and getattr(n.func, "id", None) == "hash" for n in ast.walk(tree))
     return has_fields and not uses_hash, src.strip()
+
+
+def hostkey_block_guard_fact():
+    """source fact (AST): in SSHClient.connect the block that fetches and checks the server key is skipped only under
+    `not <transport>.gss_kex_used` (a gss-* kex NEGOTIATED), not under a request flag.  Returns (ok, test source)"""
+    import ast
+    import inspect
+    import textwrap
+
+    from paramiko.client import SSHClient
+
+    src = textwrap.dedent(inspect.getsource(SSHClient.connect))
+    tree = ast.parse(src)
+    for n in ast.walk(tree):
+        if isinstance(n, ast.If) and any(isinstance(x, ast.Attribute) and x.attr == "get_remote_server_key"
+                                         for b in n.body for x in ast.walk(b)):
+            t = n.test
+            txt = ast.unparse(t)
+            ok = (isinstance(t, ast.UnaryOp) and isinstance(t.op, ast.Not) and isinstance(t.operand, ast.Attribute)
+                  and t.operand.attr == "gss_kex_used")
+            return ok, txt
+    return False, "no guarded host-key block found"
